@@ -224,12 +224,14 @@ func drain(ch chan storage.Stream[storage.ListResult]) (items []storage.ListResu
 		}
 		done <- o
 	}()
-	timer := time.NewTimer(stallWindow())
-	defer timer.Stop()
+	// the window is observed time, not wall-clock time (vprop.ObservedAfter): a frozen or starved process cannot
+	// produce a stall verdict
+	expired, stopTimer := vprop.ObservedAfter(stallWindow())
+	defer stopTimer()
 	select {
 	case o := <-done:
 		return o.items, o.errs, true
-	case <-timer.C:
+	case <-expired:
 		stallsSeen.Add(1)
 		return nil, nil, false
 	}
